@@ -9,6 +9,8 @@ Obs == ndJsonDeserialize(IOEnv.OBS)
 
 VARIABLES l, mon, out, dead
 
+SoftCap == 300
+
 TInit == l = 1 /\ mon = MP!M36Init /\ out = <<>> /\ dead = FALSE
 
 TNext ==
@@ -20,7 +22,10 @@ TNext ==
             r == IF e.fail # "none" THEN [g |-> g, viol |-> {}, hard |-> FALSE] ELSE MP!Mon36Step(g, e)
             s == SetToSeq(r.viol)
         IN /\ mon' = r.g
-           /\ out' = IF dd THEN out ELSE out \o [j \in 1..Len(s) |-> [case |-> e.case, i |-> e.i, prop |-> "C36", clause |-> s[j]]]
+           \* verdicts that only say "a keep-alive was acknowledged like a notification message" are listed for the
+           \* first SoftCap lines only (they repeat in every history with a keep-alive); all others are always listed
+           /\ out' = IF dd \/ (~r.hard /\ Len(out) >= SoftCap) THEN out
+                     ELSE out \o [j \in 1..Len(s) |-> [case |-> e.case, i |-> e.i, prop |-> "C36", clause |-> s[j]]]
            \* after a violation the rest of the case is not judged -- except after clauses that only say that a keep-alive was
            \* acknowledged like a notification message, so that any other double acknowledgement stays visible
            /\ dead' = (dd \/ r.hard \/ e.fail # "none")
